@@ -1,6 +1,6 @@
 SPECIFICATION SpecSimV
 CONSTANTS
-  Accts = {"A1", "A2", "A3"}
+  Accts = {"A1", "A2", "A3", "A4"}
   BankNames = {"BD", "KB1", "SB1", "DB1"}
   Amounts = {1}
   Ticks = {1, 3600}
@@ -25,4 +25,7 @@ CONSTANTS
   RiskPatches <- NoTuplesV
   BoundaryPairs <- BPV
   BorrowCap = 2000000000
+  VLiqCases <- VLC
+  VLiqProbes = {1, 1000}
+  VLiqTop = 2100000000
 CHECK_DEADLOCK FALSE
